@@ -1013,7 +1013,7 @@ class Interp:
                 return None
             d = info.trait_defaults.get((trait, meth))
             if d and (last_seg(ty), ) and self._type_known(info, last_seg(ty)): return self._pick(info, [d])
-            if re.fullmatch(r'[A-Z]\w*', ty) and not self._type_known(info, ty):
+            if re.fullmatch(r'[A-Z]\w*', ty) and not self._type_known(info, ty) and trait in info.traits and not strict_type_only:
                 # a generic type parameter: the instantiation is not in the (polymorphic) MIR; decidable only
                 # when the crate has exactly one implementation of that trait method
                 allc = [v for (t, tr, me), v in info.trait_impls.items() if tr == trait and me == meth]
